@@ -10,6 +10,7 @@ import (
 
 	"github.com/dtn7/dtn7-go/pkg/bpv7"
 	"github.com/dtn7/dtn7-go/pkg/cla/tcpclv4/internal/msgs"
+	"github.com/dtn7/dtn7-go/pkg/cla/tcpclv4/internal/utils"
 )
 
 // SessInitStage models the session initialization resp. SESS_INIT exchange.
@@ -44,9 +45,18 @@ func (ci *SessInitStage) Handle(state *State, closeChan <-chan struct{}) {
 		}
 	}
 
+	if err == nil && ciIn.SegmentMru == 0 {
+		// No data can be sent in segments of a zero length; the sender would emit empty segments for ever.
+		err = fmt.Errorf("peer's SESS_INIT has a Segment MRU of zero")
+	}
+
 	if err == nil {
 		ci.state.Keepalive = uint16(math.Min(float64(ci.state.Configuration.Keepalive), float64(ciIn.KeepaliveInterval)))
 		ci.state.SegmentMtu = ciIn.SegmentMru
+		if ci.state.SegmentMtu > utils.MaxSegmentMtu {
+			// The peer's Segment MRU is the size of the sender's segment buffer. Thus, it is limited.
+			ci.state.SegmentMtu = utils.MaxSegmentMtu
+		}
 		ci.state.TransferMtu = ciIn.TransferMru
 		ci.state.PeerNodeId, err = bpv7.NewEndpointID(ciIn.NodeId)
 	}
